@@ -201,6 +201,7 @@ FindUnit(ix, id, pkg, parent) ==
 (*   fmt 32|64, ver, aug (bytes), cus / ltus (offsets), ftus (BV8 sigs),   *)
 (*   bcount, buckets (Seq Nat, 1-based name index or 0), hashes (Seq BV4), *)
 (*   names: Seq [stroff, series], series = Seq entry, entry = [code, vals] *)
+(*   (abbreviation codes are BV8: ULEB128 values up to 2^64-1);            *)
 (*   vals[k] = [v : BV8 payload, to : <<i, j>>]; to = <<0,0>> for a plain  *)
 (*   payload, otherwise the value is "the pool offset of the j-th entry of *)
 (*   name i" (DW_IDX_parent references), resolved by Enc;                  *)
@@ -230,8 +231,10 @@ FormKind(f) == IF f \in {F_data1, F_data2, F_data4, F_data8, F_udata} THEN "u"
                ELSE IF f \in {F_ref1, F_ref2, F_ref4, F_ref8, F_ref_udata} THEN "off" ELSE "flag"
 IsSym(x) == x.to # <<0, 0>>
 
+(* An entry is decoded with the abbreviation that CARRIES its code (the first one declared  *)
+(* with that code), wherever it stands in the table; [code |-> 0] if none does.            *)
 AbbrevOf(nx, code) == LET S == {a \in DOMAIN nx.abbrevs : nx.abbrevs[a].code = code} IN
-                      IF S = {} THEN [code |-> 0] ELSE nx.abbrevs[CHOOSE a \in S : \A b \in S : a <= b]
+                      IF S = {} THEN [code |-> Zero(8)] ELSE nx.abbrevs[CHOOSE a \in S : \A b \in S : a <= b]
 EncVal(f, v, le) == IF ~KnownForm(f) THEN <<>>
                     ELSE IF f \in {F_udata, F_ref_udata} THEN EncU(v)
                     ELSE Lay(Trunc(v, FixedFormSize(f)), le)
@@ -239,11 +242,11 @@ ValSize(f, x) == IF ~KnownForm(f) THEN 0
                  ELSE IF f \in {F_udata, F_ref_udata} THEN Len(EncU(x.v)) ELSE FixedFormSize(f)
 (* an entry whose abbreviation is unknown is laid out as its code only *)
 EntryForms(nx, e) == LET a == AbbrevOf(nx, e.code) IN
-                     IF a.code = 0 THEN <<>> ELSE [k \in DOMAIN a.attrs |-> a.attrs[k].form]
+                     IF IsZero(a.code) THEN <<>> ELSE [k \in DOMAIN a.attrs |-> a.attrs[k].form]
 RECURSIVE SumSeq(_)
 SumSeq(s) == IF s = <<>> THEN 0 ELSE Head(s) + SumSeq(Tail(s))
 EntrySize(nx, e) == LET fs == EntryForms(nx, e) IN
-    Len(ULebN(e.code)) + SumSeq([k \in DOMAIN fs |-> IF k > Len(e.vals) THEN 0 ELSE ValSize(fs[k], e.vals[k])])
+    Len(EncU(e.code)) + SumSeq([k \in DOMAIN fs |-> IF k > Len(e.vals) THEN 0 ELSE ValSize(fs[k], e.vals[k])])
 SeriesSize(nx, i) == LET sr == nx.names[i].series IN
     SumSeq([j \in DOMAIN sr |-> EntrySize(nx, sr[j])])
     + (IF i = Len(nx.names) /\ ~nx.term THEN 0 ELSE 1)
@@ -252,12 +255,12 @@ EntryOff(nx, i, j) == SeriesOff(nx, i) + SumSeq([m \in 1..(j - 1) |-> EntrySize(
 PoolSize(nx) == SeriesOff(nx, Len(nx.names) + 1)
 ResolveVal(nx, x) == IF IsSym(x) THEN FromNat(EntryOff(nx, x.to[1], x.to[2]), 8) ELSE x.v
 EncEntry(nx, e, le) == LET fs == EntryForms(nx, e) IN
-    ULebN(e.code) \o Flat([k \in DOMAIN fs |-> IF k > Len(e.vals) THEN <<>> ELSE EncVal(fs[k], ResolveVal(nx, e.vals[k]), le)])
+    EncU(e.code) \o Flat([k \in DOMAIN fs |-> IF k > Len(e.vals) THEN <<>> ELSE EncVal(fs[k], ResolveVal(nx, e.vals[k]), le)])
 EncSeries(nx, i, le) == LET sr == nx.names[i].series IN
     Flat([j \in DOMAIN sr |-> EncEntry(nx, sr[j], le)])
     \o (IF i = Len(nx.names) /\ ~nx.term THEN <<>> ELSE <<0>>)
 EncPool(nx, le) == Flat([i \in DOMAIN nx.names |-> EncSeries(nx, i, le)])
-EncAbbrev(a) == ULebN(a.code) \o ULebN(a.tag)
+EncAbbrev(a) == EncU(a.code) \o ULebN(a.tag)
                 \o Flat([k \in DOMAIN a.attrs |-> ULebN(a.attrs[k].idx) \o ULebN(a.attrs[k].form)]) \o <<0, 0>>
 EncAbbrevs(nx) == Flat([a \in DOMAIN nx.abbrevs |-> EncAbbrev(nx.abbrevs[a])]) \o (IF nx.term THEN <<0>> ELSE <<>>) \o nx.abbrev_pad
 EntryOffsets(nx) == IF nx.eoffs = <<>> THEN [i \in DOMAIN nx.names |-> SeriesOff(nx, i)] ELSE nx.eoffs
@@ -353,7 +356,7 @@ AccHash(a, vals) == LET k == FirstAttr(a, vals, 5) IN
 (* what gimli reports for the well-laid-out entry e at pool offset off *)
 EntryObs(nx, e, off) ==
     LET a == AbbrevOf(nx, e.code) IN
-    IF a.code = 0 THEN E("InvalidAbbreviationCode")
+    IF IsZero(a.code) THEN E("InvalidAbbreviationCode")
     ELSE IF \E k \in DOMAIN a.attrs : ~KnownForm(a.attrs[k].form) THEN E("UnknownForm")
     ELSE LET vals == [k \in DOMAIN a.attrs |-> ValObs(a.attrs[k].form, ResolveVal(nx, e.vals[k]))] IN
          [off |-> off, code |-> e.code, tag |-> a.tag,
@@ -558,12 +561,12 @@ LoaderExp(api, main, sup, parent, fail) ==
 (* dies (BV4)].  EncNamesUniform is a linear-time layout; MCNames checks   *)
 (* that it equals the general EncNames of UniformNx(hint).                 *)
 (***************************************************************************)
-UniformAbbrevs == << [code |-> 1, tag |-> 46, attrs |-> <<[idx |-> 3, form |-> F_ref4]>>] >>
+UniformAbbrevs == << [code |-> One(8), tag |-> 46, attrs |-> <<[idx |-> 3, form |-> F_ref4]>>] >>
 UniformNx(h) == [fmt |-> h.fmt, ver |-> 5, aug |-> <<>>, cus |-> h.cus, ltus |-> <<>>, ftus |-> <<>>,
                  bcount |-> h.bcount, buckets |-> h.buckets, hashes |-> h.hashes,
                  names |-> [i \in DOMAIN h.stroffs |->
                               [stroff |-> h.stroffs[i],
-                               series |-> << [code |-> 1, vals |-> <<[v |-> ZExt(h.dies[i], 8), to |-> <<0, 0>>]>>] >>]],
+                               series |-> << [code |-> One(8), vals |-> <<[v |-> ZExt(h.dies[i], 8), to |-> <<0, 0>>]>>] >>]],
                  abbrevs |-> UniformAbbrevs, term |-> TRUE, abbrev_pad |-> <<>>, eoffs |-> <<>>]
 EncNamesUniform(h, le) ==
     LET n == Len(h.stroffs)
